@@ -1,3 +1,4 @@
 pub mod dsl;
 pub mod tick;
 pub mod universe;
+pub mod rt;
